@@ -8,7 +8,7 @@ use crate::{
         },
         RawBytes,
     },
-    byte_range::ByteRange,
+    byte_range::{ByteRange, InvalidByteRangeError},
 };
 
 #[cfg(feature = "async")]
@@ -44,6 +44,11 @@ impl BytesPartialDecoderTraits for BloscPartialDecoder {
             if let (Some(nbytes), Some(typesize)) = (nbytes, typesize) {
                 let mut decoded_byte_ranges = Vec::with_capacity(decoded_regions.len());
                 for byte_range in decoded_regions {
+                    if !byte_range.is_valid(nbytes as u64) {
+                        return Err(
+                            InvalidByteRangeError::new(*byte_range, nbytes as u64).into()
+                        );
+                    }
                     let start = usize::try_from(byte_range.start(nbytes as u64)).unwrap();
                     let end = usize::try_from(byte_range.end(nbytes as u64)).unwrap();
                     decoded_byte_ranges.push(
@@ -96,6 +101,11 @@ impl AsyncBytesPartialDecoderTraits for AsyncBloscPartialDecoder {
             if let (Some(nbytes), Some(typesize)) = (nbytes, typesize) {
                 let mut decoded_byte_ranges = Vec::with_capacity(decoded_regions.len());
                 for byte_range in decoded_regions {
+                    if !byte_range.is_valid(nbytes as u64) {
+                        return Err(
+                            InvalidByteRangeError::new(*byte_range, nbytes as u64).into()
+                        );
+                    }
                     let start = usize::try_from(byte_range.start(nbytes as u64)).unwrap();
                     let end = usize::try_from(byte_range.end(nbytes as u64)).unwrap();
                     decoded_byte_ranges.push(
